@@ -559,6 +559,8 @@ def build(repo: str) -> Dict[str, Any]:
                 nm = re.fullmatch(r"model\.\w+\.(\w+)", dec_default).group(1)
                 etab = next((t for t in enums.values() if nm in t), None)
                 dflt = "tok:" + (etab[nm] if etab else nm)
+            if (cls, attr) in meta.SPEC_DEFAULTS and dflt == "none":
+                dflt = "tok:" + meta.SPEC_DEFAULTS[(cls, attr)]
             guard = w["guard"]
             if guard.startswith("isTok:"):
                 nm = guard.split(":")[1]
